@@ -47,7 +47,7 @@ def oracle(ctx, seeds=None):
                 q = [rng.normal(size=n)]; lam = np.full(n, abs(a))
                 fl = None
             elif kind == 1:
-                m = impl.burgers.model(); u = rng.normal(size=n) * 3; u[u == 0] = 1.0
+                m = impl.burgers.model(); u = rng.normal(size=n) * 3 * 10.0 ** rng.integers(-8, 4, n); u[u == 0] = 1.0
                 q = [u]; lam = np.abs(u); fl = None
             elif kind == 2:
                 g = float(rng.choice([9.81, 1.0])); m = impl.shallowwater.shallowwater1d(g=g)
@@ -130,6 +130,45 @@ def oracle(ctx, seeds=None):
                 res.count('driver-checked')
             except Exception as e:
                 res.fail(name + ':raised', "%s: %s" % (type(e).__name__, e), rp)
+    # ---- time increments of successive iterations, including a run continued with another CFL number
+    for i in range(ctx.n(20, 300)):
+        n = int(rng.integers(2, 8))
+        xf = np.concatenate([[0.0], np.cumsum(10.0 ** rng.uniform(-2, 0, n))])
+        msh = impl.mesh.unimesh(ncell=n, length=float(xf[-1])); msh.xf = xf.copy(); msh.xc = msh.calc_centers()
+        kind = i % 3
+        if kind == 0:
+            a = float(rng.choice([1.0, -2.5, 0.3])); m = impl.convection.model(a); q = [rng.normal(size=n)]
+        elif kind == 1:
+            m = impl.burgers.model(); q = [rng.uniform(0.5, 2, n) * float(rng.choice([1, -1]))]
+        else:
+            g = gens.gamma(rng); m = impl.euler.euler1d(gamma=g)
+            q = m.prim2cons([rng.uniform(0.5, 2, n), rng.uniform(-1, 1, n), rng.uniform(0.5, 2, n)])
+        name = ['convection', 'burgers', 'euler1d'][kind]
+        cfls = [float(rng.choice([0.5, 0.2, 0.8])), float(rng.choice([0.1, 0.4, 0.25])), float(rng.choice([0.3, 0.05]))]
+        integ = str(rng.choice(['explicit', 'rk2', 'rk3ssp']))
+        res.case(('history', name, integ, tuple(cfls)))
+        rp = dict(model=name, cfls=cfls, integrator=integ, n=n)
+        try:
+            disc = impl.modeldisc.fvm(m, msh, impl.xnum.extrapol1(), bcL={'type': 'per'}, bcR={'type': 'per'}) if kind != 2 else \
+                impl.modeldisc.fvm(m, msh, impl.xnum.extrapol1(), numflux='hlle', bcL={'type': 'sym'}, bcR={'type': 'sym'})
+            s = getattr(impl.integ, integ)(msh, disc)
+            f = impl.field.fdata(m, msh, [np.array(x, dtype=float) for x in q])
+            bad = None
+            first = True
+            for r_, cfl in enumerate(cfls):
+                for k in range(2):
+                    exp = float(np.min(np.asarray(disc.calc_timestep(f, cfl), dtype=float) * np.ones(n)))
+                    t0 = f.time
+                    f = (s.solve(f, cfl, stop={'maxit': 1}) if first else s.restart(f, cfl, stop={'maxit': 1}))[-1]
+                    first = False
+                    if abs((f.time - t0) - exp) > 1e-11 * exp:
+                        bad = (r_, k, f.time - t0, exp, cfl); break
+                if bad:
+                    break
+            if bad:
+                res.fail(name + ':history-increment', "round %d iteration %d advanced time by %r, min_i CFL dx_i/lambda_i = %r (cfl %r)" % bad, rp)
+        except Exception as e:
+            res.fail(name + ':raised', "%s: %s" % (type(e).__name__, e), rp)
     return res
 
 
